@@ -29,5 +29,6 @@ NodeMapVal == [Alive |-> "Alive", Dead |-> "Dead", CleaningUp |-> "Dead", DoesNo
                Starting |-> "DoesNotExist", Err |-> "Undefined"]
 
 LevelsVal == [m \in Monitors |-> {"pm", "cal", "node"}]
-ExcusedVal == {}
+\* signatures of the findings known for the pinned commit (known_findings.json); with {} TLC reports them
+ExcusedVal == { <<"falsedead", "pm", "shutdown">>, <<"falsedead", "cal", "shutdown">>, <<"falsedead", "node", "shutdown">> }
 =============================================================================
